@@ -25,7 +25,9 @@ structure Inv (s : St) : Prop where
   doneClosed : s.closeDone = true → s.chClosed = true
   late0 : s.late = 0
   cons : s.cnt .r0 + s.cnt .r1 ≤ 1
-  consExit : s.cnt .r0 + s.cnt .r1 = 0 → s.chClosed = true
+  consExit : s.cnt .r0 + s.cnt .r1 = 0 → s.chClosed = true ∨ s.selfClosing = true
+  selfCons : s.selfClosing = true → s.cnt .r0 + s.cnt .r1 = 0 ∧ 0 < s.cnt .c1
+  startedDone : s.closeStarted = true → s.cnt .c0 + s.cnt .c1 = 0 → s.closeDone = true
   closedStarted : s.chClosed = true → s.closeStarted = true
   nopanic : s.recovers = true → s.panic = false
 
@@ -33,21 +35,29 @@ theorem inv_init (cap : Nat) (r : Bool) : Inv (init cap r) := by
   constructor <;> simp [init]
 
 theorem inv_spawn {s s' pc} (h : spawn s pc = some s') (hi : Inv s) : Inv s' := by
-  obtain ⟨one, started, closedNoCloser, c1flag, doneFlag, doneClosed, late0, cons, consExit, closedStarted, nopanic⟩ := hi
+  obtain ⟨one, started, closedNoCloser, c1flag, doneFlag, doneClosed, late0, cons, consExit, selfCons, startedDone, closedStarted, nopanic⟩ := hi
+  have b1 := Bool.toNat_le s.flag; have b2 := Bool.toNat_le s.chClosed; have b3 := Bool.toNat_le s.closeStarted
+  have b4 := Bool.toNat_le s.closeDone; have b5 := Bool.toNat_le s.selfClosing; have b6 := Bool.toNat_le s.panic
+  have b7 := Bool.toNat_le s.recovers
   cases pc <;> simp [spawn] at h
-  · subst h; constructor <;> simp_all [updK]
-  · obtain ⟨hs, rfl⟩ := h
-    have := started hs
-    constructor <;> simp_all [updK] <;> c15fin
+  all_goals (try (obtain ⟨hs, rfl⟩ := h))
+  all_goals (try subst h)
+  all_goals (c15hyps; constructor <;> (try simp [updK]) <;> c15goal)
 
+set_option maxHeartbeats 3200000 in
 theorem inv_step {s s' nx pc ch} (h : gstep s pc ch = some (s', nx)) (hi : Inv s) : Inv s' := by
-  obtain ⟨one, started, closedNoCloser, c1flag, doneFlag, doneClosed, late0, cons, consExit, closedStarted, nopanic⟩ := hi
+  obtain ⟨one, started, closedNoCloser, c1flag, doneFlag, doneClosed, late0, cons, consExit, selfCons, startedDone, closedStarted, nopanic⟩ := hi
   obtain ⟨hc, s1, hs, rfl⟩ := gstep_some h
+  clear h
+  have b1 := Bool.toNat_le s.flag; have b2 := Bool.toNat_le s.chClosed; have b3 := Bool.toNat_le s.closeStarted
+  have b4 := Bool.toNat_le s.closeDone; have b5 := Bool.toNat_le s.selfClosing; have b6 := Bool.toNat_le s.panic
+  have b7 := Bool.toNat_le s.recovers
   cases pc <;> simp only [step, kind] at hs hc
   all_goals (repeat' split at hs)
-  all_goals (try (simp at hs))
+  all_goals (try (simp only [Option.some.injEq, Prod.mk.injEq] at hs))
   all_goals (try (obtain ⟨rfl, rfl⟩ := hs))
-  all_goals (constructor <;> simp_all [move, kind, updK] <;> c15fin)
+  all_goals (try (simp at hs))
+  all_goals (c15hyps; constructor <;> (try simp [move, kind, updK]) <;> c15goal)
 
 theorem inv_reach {cap r s} (h : Reach cap r s) : Inv s := by
   induction h with
@@ -55,7 +65,7 @@ theorem inv_reach {cap r s} (h : Reach cap r s) : Inv s := by
   | spawn pc _ hs ih => exact inv_spawn hs ih
   | step pc ch _ hs ih => exact inv_step hs ih
   | gate _ ih =>
-    obtain ⟨one, started, closedNoCloser, c1flag, doneFlag, doneClosed, late0, cons, consExit, closedStarted, nopanic⟩ := ih
+    obtain ⟨one, started, closedNoCloser, c1flag, doneFlag, doneClosed, late0, cons, consExit, selfCons, startedDone, closedStarted, nopanic⟩ := ih
     constructor <;> simp_all
 
 theorem recovers_const {cap r s} (h : Reach cap r s) : s.recovers = r := by
@@ -65,6 +75,7 @@ theorem recovers_const {cap r s} (h : Reach cap r s) : s.recovers = r := by
     cases pc <;> simp [spawn] at hs
     · subst hs; exact ih
     · obtain ⟨_, rfl⟩ := hs; exact ih
+    · subst hs; exact ih
   | step pc ch _ hs ih =>
     obtain ⟨_, s1, hs1, rfl⟩ := gstep_some hs
     cases pc <;> simp only [step] at hs1
@@ -84,19 +95,33 @@ theorem gstep_of_isSome {s pc} (ch : Bool) (hc : 0 < s.cnt (kind pc)) (hs : (ste
     unfold gstep
     rw [if_neg (by omega), h]
 
+/-- side condition for a running callback: one that waits for what the closer does after Close() (ids 400–499)
+    is only expected to finish when a Close has been started at all -/
+def live (s : St) : PC → Prop
+  | .r1 m => waitsClose m = true → s.closeStarted = true
+  | _ => True
+
+theorem r1_enabled {s} (hi : Inv s) (hg : s.gate = true) (hc0 : s.cnt .c0 = 0) (hc1 : s.cnt .c1 = 0) (m : Nat)
+    (hl : live s (.r1 m)) : (step s (.r1 m)).isSome = true := by
+  simp only [step, hg]
+  by_cases hw : waitsClose m = true
+  · have hd := hi.startedDone (hl hw) (by omega)
+    simp [hw, hd]; split <;> simp
+  · simp [hw]; split <;> simp
+
 /-- whenever an operation, the Close or a callback is in progress (callbacks terminate: gate open), some
     goroutine can take a step -/
 theorem progress {s} (hi : Inv s) (hr : s.recovers = true) (hg : s.gate = true)
     (hb : 0 < s.cnt .p0 ∨ 0 < s.cnt .p1 ∨ 0 < s.cnt .c0 ∨ 0 < s.cnt .c1 ∨ 0 < s.cnt .r1) :
     ∃ pc ch s' nx, gstep s pc ch = some (s', nx) := by
-  by_cases h1 : 0 < s.cnt .r1
-  · exact gstep_of_isSome false (pc := .r1 0) h1 (by simp [step, hg])
-  by_cases h0 : 0 < s.cnt .p0
-  · exact gstep_of_isSome false (pc := .p0 0) h0 (by simp only [step]; split <;> simp)
   by_cases hc0 : 0 < s.cnt .c0
   · exact gstep_of_isSome false (pc := .c0) hc0 (by simp [step])
   by_cases hc1 : 0 < s.cnt .c1
-  · exact gstep_of_isSome false (pc := .c1) hc1 (by simp only [step]; split <;> simp)
+  · exact gstep_of_isSome false (pc := .c1) hc1 (by simp only [step]; (repeat' split) <;> simp)
+  by_cases h1 : 0 < s.cnt .r1
+  · exact gstep_of_isSome false (pc := .r1 0) h1 (r1_enabled hi hg (by omega) (by omega) 0 (by simp [live, waitsClose]))
+  by_cases h0 : 0 < s.cnt .p0
+  · exact gstep_of_isSome false (pc := .p0 0) h0 (by simp only [step]; split <;> simp)
   have hp1 : 0 < s.cnt .p1 := by omega
   -- a sender at the send: closed channel → recovered; room → sent; otherwise the consumer can move
   by_cases hcl : s.chClosed = true
@@ -105,8 +130,9 @@ theorem progress {s} (hi : Inv s) (hr : s.recovers = true) (hg : s.gate = true)
   · exact gstep_of_isSome false (pc := .p1 0) hp1 (by simp [step, hcl, hroom])
   have hr0 : 0 < s.cnt .r0 := by
     apply Classical.byContradiction; intro hcon
-    have := hi.consExit (by omega)
-    exact hcl this
+    rcases hi.consExit (by omega) with h | h
+    · exact hcl h
+    · have := (hi.selfCons h).2; omega
   cases hbuf : s.buf with
   | nil =>
     exfalso
